@@ -42,8 +42,9 @@ func init() {
 				Rule: "mbits: every length 0..16 x every alignment 0..7 x every zero/non-zero pattern (exhaustive), lengths 17..40 (64 thorough) x alignments x structured and random patterns; lengths 16..136 with pairs/triples of 64-bit words that cancel under +, xor and or/and-not (for implementations that combine words before testing), at both possible word phases; a few buffers of 4095..65536 bytes; each in two layouts: a window inside a guard-filled buffer, and a slice that ends exactly at the end of its allocation; LeadingZeroes/TrailingZeroes vs byte loops, Zero clears exactly the slice and returns its length, guard bytes intact; run plain, under -race (checkptr) and, in thorough, under -asan; one goroutine works on a slice while another writes the 8 bytes on either side of it (lost neighbour updates checked, and any access outside the slice is a data race for the race detector). " +
 					"mstr.Trunc: every string of <= 5 runes over 1-, 2-, 3- and 4-byte runes x every n in 0..len+2 (prefix, len <= n, identity when n >= len, valid UTF-8, len >= n-4 when cut), random invalid byte strings for the unconditional clauses. " +
 					"mstr.CompareNatural: all 259 strings of length <= 3 over {0,1,9,/,:,a}: result in {-1,0,1}, antisymmetry on all pairs, transitivity on all 17.4 M triples (counted: those whose premises a<=b<=c hold), zero iff equal after stripping leading zeros of digit runs; every byte value and every rune U+0080..U+FFFF (stride beyond) placed after, before and between digit runs; numeric order of embedded digit runs of up to 18 digits, including pairs of runs that differ only in their low-order digits at every magnitude (around powers of ten and of two) with following text that would decide the other way. " +
+					"CompareNatural on strings that share storage (every pair of prefixes, of suffixes, and window against whole, of zero-rich strings), checked against the reference and against unrelated copies of the same contents. " +
 					"distinct = enumerated inputs; non-trivial = mbits length >= 8 (word loop engaged) / Trunc cuts inside a multi-byte rune / CompareNatural pair with a digit run on both sides",
-				Required:     []string{"mbits_cases", "mbits_unaligned_word_cases", "mbits_exact_end_cases", "mbits_cancelling_word_cases", "trunc_cases", "trunc_cuts_inside_rune", "natural_pairs", "natural_triples", "natural_numeric_pairs", "natural_prefix_pairs", "natural_close_value_pairs", "natural_rune_next_to_digits_pairs", "mbits_concurrent_neighbour_cases", "natural_huge_strings"},
+				Required:     []string{"mbits_cases", "mbits_unaligned_word_cases", "mbits_exact_end_cases", "mbits_cancelling_word_cases", "trunc_cases", "trunc_cuts_inside_rune", "natural_pairs", "natural_triples", "natural_numeric_pairs", "natural_prefix_pairs", "natural_close_value_pairs", "natural_rune_next_to_digits_pairs", "mbits_concurrent_neighbour_cases", "natural_huge_strings", "natural_pairs_sharing_storage"},
 				Exhaustive:   true,
 				Assumptions:  []string{"an over-read that stays inside one allocation and does not change the result is invisible to this monitor", "digit runs are kept to <= 18 digits so that int does not overflow"},
 				CoverPkgs:    []string{"github.com/creachadair/mds/mbits", "github.com/creachadair/mds/mstr"},
@@ -594,7 +595,56 @@ func c20neighbours(c *fw.Ctx) {
 	c.Add("mbits_concurrent_same_slice_cases", 10)
 }
 
+// c20shared: CompareNatural on two strings that share storage: prefixes of one
+// string (same first byte in memory), suffixes (same last byte), a string and
+// a window of it, and a string with itself; each pair also as unrelated copies.
+func c20shared(c *fw.Ctx) {
+	r := c.Rng()
+	fixed := []string{"v1.000", "0000", "a00b000", "x0", "10.00.000", "file-00", "007a007", "1000000", "a1b01c001", "0a0", "99990000", "\xff00", "é00", "00.00"}
+	var n int64
+	for k := 0; k < 60+len(fixed); k++ {
+		var s string
+		if k < len(fixed) {
+			s = strings.Clone(fixed[k])
+		} else {
+			b := make([]byte, 2+r.IntN(11))
+			for i := range b {
+				b[i] = "000019a."[r.IntN(8)]
+			}
+			s = string(b)
+		}
+		L := len(s)
+		for i := 0; i <= L; i++ {
+			for j := 0; j <= L; j++ {
+				pairs := [][2]string{{s[:i], s[:j]}, {s[i:], s[j:]}}
+				if i <= j {
+					pairs = append(pairs, [2]string{s[i:j], s}, [2]string{s[i:j], s[i:]}, [2]string{s[i:j], s[:j]})
+				}
+				for _, p := range pairs {
+					n++
+					if !c20pair(c, p[0], p[1]) {
+						return
+					}
+					// the same contents in storage of their own must give the same answer
+					if got, want := mstr.CompareNatural(p[0], p[1]), mstr.CompareNatural(strings.Clone(p[0]), strings.Clone(p[1])); got != want {
+						c.Fail(map[string]any{"a": fw.Q(p[0]), "b": fw.Q(p[1]), "both_are_windows_of": fw.Q(s)}, "CompareNatural = %d on two windows of one string, %d on copies of them", got, want)
+						return
+					}
+				}
+			}
+		}
+		c.Step()
+	}
+	c.Add("natural_pairs_sharing_storage", n)
+}
+
 func runC20(c *fw.Ctx) {
+	if c.Begin(1<<22 + 64 + c.Block) {
+		ok, pv, stack := fw.Try(func() { c20shared(c) })
+		if !ok {
+			c.FailKind("panic", map[string]any{"phase": "strings sharing storage"}, "panic: %v\n%s", pv, stack)
+		}
+	}
 	if (c.Flavour == "race" || c.Flavour == "plain") && c.Begin(1<<22+c.Block) {
 		ok, pv, stack := fw.Try(func() { c20neighbours(c) })
 		if !ok {
